@@ -32,6 +32,8 @@ def run(ctx):
     stored_length_encoding(ctx, P)
     s2k_usage_tables(ctx, P)
     tag_tables(ctx, P)
+    from rules.tables import rfc_id_tables
+    rfc_id_tables(ctx, P)
     from rules.tables import lossless_bool_subpackets
     lossless_bool_subpackets(ctx, P)
     opaque_layout(ctx, P)
